@@ -13,7 +13,7 @@ import (
 // with a crash-restart or an injected write error at every stable-store write.
 
 type c06msg struct {
-	Kind     string `json:"kind"` // rv | pv | ae
+	Kind     string `json:"kind"`        // rv | pv | ae
 	TermOff  int    `json:"term_offset"` // relative to the initial current term: -1..+2
 	Cand     string `json:"from"`
 	CandLog  int    `json:"cand_log"` // -1 behind, 0 equal, +1 ahead (relative to the voter's log at the start)
@@ -38,8 +38,8 @@ type c06case struct {
 type crashSignal struct{}
 
 type c06hooks struct {
-	writes int
-	faults []c06fault
+	writes     int
+	faults     []c06fault
 	crashAfter bool
 }
 
@@ -62,7 +62,7 @@ func (h *c06hooks) Answer(node int, op string, mayFail bool) Fault {
 	}
 	return FaultNone
 }
-func (h *c06hooks) CrashNow(node int)                                              { panic(crashSignal{}) }
+func (h *c06hooks) CrashNow(node int)                                               { panic(crashSignal{}) }
 func (h *c06hooks) OnStoreLogs(node int, logs []*raft.Log)                          {}
 func (h *c06hooks) OnDeleteRange(node int, min, max uint64, removed []*raft.Log)    {}
 func (h *c06hooks) OnStableSet(node int, key string, val []byte)                    {}
@@ -403,7 +403,7 @@ func replayC06(m map[string]any) (string, bool) {
 func init() {
 	enumReplays["enum-votes"] = replayC06
 	register(&Check{Prop: "C06", Level: "model_checking",
-		Rule: "exhaustive enumeration on the real RequestVote/RequestPreVote/AppendEntries handlers (Raft built without goroutines over the harness store): every initial durable state (term, vote record, log shape, configuration) x every message sequence up to the bound x every placement of {write error, crash before, crash after} at each stable-store write, the server being rebuilt from its durable image after a crash; distinct = distinct (state, sequence) pairs",
+		Rule:        "exhaustive enumeration on the real RequestVote/RequestPreVote/AppendEntries handlers (Raft built without goroutines over the harness store): every initial durable state (term, vote record, log shape, configuration) x every message sequence up to the bound x every placement of {write error, crash before, crash after} at each stable-store write, the server being rebuilt from its durable image after a crash; distinct = distinct (state, sequence) pairs",
 		Assumptions: []string{"messages: RequestVote/RequestPreVote with term offset -1..+2, candidates A,B and a stranger, candidate log behind/equal/ahead, leadership-transfer flag; AppendEntries heartbeats from A,B", "sequences of length <= 2 with one fault (quick); length 3 vote sequences and two faults (thorough)", "a panic on a failed term write is a deliberate fail-stop and treated as a crash"},
 		Units: func(tier string) []Unit {
 			us := []Unit{{Name: "enum-votes", Enum: enumC06}}
